@@ -816,6 +816,14 @@ verdict_t check_impl(const case_t& given, ctx_t& ctx)
             if (k == 0)
             {
                 first = e1;
+                // a copy of the objective (what a solver working on function.clone() evaluates) is the same objective
+                const auto cloned = function.clone();
+                if (!cloned || cloned->size() != function.size())
+                {
+                    judge.fail = verdict_t::violation(cat("C09/", name, "/clone/size"), config);
+                    return;
+                }
+                compare(judge, evaluate(*cloned, x, true), naive, cat("C09/", name, "/definition/clone"), config);
             }
             else
             {
